@@ -114,7 +114,7 @@ def make(sid, front, switch, append, pre, nsym=0, twice=False):
         may_modify = (before is None) or (append and ((switch == "to_cas" and pre_is_cas) or (switch == "to_dsk" and pre_is_dsk)
                                                        or (switch == "to_bin" and not pre_is_cas and not pre_is_dsk)))
         # accepted either way: an empty existing file; --to_bin --append onto something that is not a container image
-        either = (pre == "empty") or (switch == "to_bin" and append and not pre_is_cas and not pre_is_dsk)
+        either = (pre == "empty" and append) or (switch == "to_bin" and append and not pre_is_cas and not pre_is_dsk)
         fault = None
         if r.exc:
             fault = "traceback: " + r.exc
